@@ -382,6 +382,17 @@ SelOf(a) == [d \in D |-> ToSet(a.sel[d])]
 ExtOf(a) == IF "ext" \in DOMAIN a THEN [stamp |-> ToSet(a.ext.stamp), blocks |-> ToSet(a.ext.blocks), reduced |-> Reduced]
             ELSE [NoExt EXCEPT !.reduced = Reduced]
 
+(* fix as seen through the paths: after the stripes, fix re-creates every recorded link that is not right (check.c:1590-1760):
+   a recorded hard link becomes a name of its target's inode (whatever was at that path is removed first), a recorded symbolic
+   link replaces whatever is at its path.  Links are processed only when at least one stripe is in the range. *)
+ExpectedPaths(rfs, k, rg, c) ==
+    LET base == PathFs(rfs, k)
+    IN IF RangeOf(rg, AllocatedMax(c)) = {} THEN base ELSE
+       [d \in D |->
+           LET hl == {n \in DOMAIN k.clk[d] : k.clk[d][n][1] = "hard" /\ k.clk[d][n][2] \in DOMAIN base[d]}
+               sl == {n \in DOMAIN k.clk[d] : k.clk[d][n][1] # "hard"}
+           IN Eager([n \in (DOMAIN base[d] \cup hl) \ sl |-> IF n \in hl THEN base[d][k.clk[d][n][2]] ELSE base[d][n]])]
+
 FltOf(a) == IF "flt" \in DOMAIN a
             THEN FilterOf(C, [disks |-> ToSet(a.flt.disks), plevels |-> ToSet(a.flt.plevels), usenames |-> a.flt.usenames,
                               names |-> [d \in D |-> ToSet(a.flt.names[d])], missing |-> a.flt.missing,
@@ -391,8 +402,9 @@ FltOf(a) == IF "flt" \in DOMAIN a
 CheckStep ==
     /\ IsEvent("Check")
     /\ LET a == Ev.args
-           r == CheckResultX(C, PathFs(fs, lks), par, PresentOf(a), a.audit, a.range, ExtOf(a))
-           lerr == LinkErrorsF(lks, fs) /\ RangeOf(a.range, AllocatedMax(C)) # {}      \* links are not looked at without any stripe
+           flt == IF "flt" \in DOMAIN a THEN FltOf(a) ELSE NoFilterOf(C)
+           r == CheckResultF(C, PathFs(fs, lks), par, PresentOf(a), a.audit, a.range, ExtOf(a), flt)
+           lerr == LinkErrorsF(lks, fs) /\ RangeOf(a.range, AllocatedMax(C)) # {} /\ "flt" \notin DOMAIN a      \* links are not looked at without any stripe
            xexit == IF r.exit = "ok" /\ lerr THEN (IF a.audit THEN "error" ELSE "recoverable") ELSE r.exit
            okO == (xexit = Ev.out.exit \/ (lerr /\ Ev.out.exit = "unrecoverable"))
                   /\ r.derr = PairSet(Ev.out.derr) /\ (a.audit \/ r.perr = PairSet(Ev.out.perr))
@@ -401,11 +413,12 @@ CheckStep ==
           /\ diag' = IF okO /\ okS THEN <<>> ELSE <<"Check", l, [okO |-> okO, okS |-> okS], r, Ev.out>>
           /\ pviol' = C12_Frame("Check", Ev.state) \o
                       (IF ~ParityInvalid(C) /\ NoDifference(C, fs) /\ (\A lv \in PresentOf(a) : Len(par[lv]) >= AllocatedMax(C))
-                          /\ a.range.bstart = 0 /\ a.range.bcount = 0 /\ ~LinkErrorsF(lks, fs)
+                          /\ a.range.bstart = 0 /\ a.range.bcount = 0 /\ ~LinkErrorsF(lks, fs) /\ "flt" \notin DOMAIN a
                        THEN C04_Check(C, fs, par, a, Ev.out) ELSE <<>>) \o
                       (IF afterfix /\ Ev.out.rc # 0 THEN <<<<"C01", "check-after-fix-finds-errors", Ev.out>>>> ELSE <<>>)
           \* a full check without any error ends a damage episode
-          /\ dmg' = (dmg /\ ~(~a.audit /\ Ev.out.rc = 0 /\ PresentOf(a) = Levels /\ a.range.bstart = 0 /\ a.range.bcount = 0))
+          /\ dmg' = (dmg /\ ~(~a.audit /\ Ev.out.rc = 0 /\ PresentOf(a) = Levels /\ a.range.bstart = 0 /\ a.range.bcount = 0
+                              /\ "flt" \notin DOMAIN a))
           /\ UNCHANGED <<clean, snap, ghost, afterfix>>
 
 FixStep ==
@@ -415,7 +428,9 @@ FixStep ==
            selected == [d \in D |-> DOMAIN C.cf[d] \ flt.ex[d]]
            r == FixRangeF(C, fs, par, PresentOf(a), flt, a.range, ExtOf(a))
            whole == a.range.bstart = 0 /\ a.range.bcount = 0 /\ "flt" \notin DOMAIN a
-           okF == SameFs(r.fs, Ev.state.fs)
+           okF == IF "lk" \in DOMAIN Ev.state /\ "flt" \notin DOMAIN a
+                  THEN SameFs(ExpectedPaths(r.fs, lks, a.range, C), PathFs(Ev.state.fs, LinksOf(Ev.state)))
+                  ELSE SameFs(r.fs, Ev.state.fs)
            okP == ParAgrees(r.par, Ev.state)
            okC == LoggedC(Ev.state) = C
            okO == /\ (r.out.exit = Ev.out.exit \/ (LinkErrorsF(lks, fs) /\ r.out.exit \in {"ok", "recovered"} /\ Ev.out.exit \in {"recovered", "unrecoverable"}))
@@ -474,6 +489,9 @@ FaultStep ==
                               IF n \in Fresh(L0, fs, d) /\ n \in DOMAIN fs[d] THEN fs[d][n].b
                               ELSE IF n \in DOMAIN ghost[d] THEN ghost[d][n] ELSE <<>>]]
           /\ pviol' = (IF p >= 0 /\ sig # "none" THEN <<<<"C08", sig, [kind |-> a.fkind, pos |-> p, rc |-> Ev.out.rc, rules |-> a.rules]>>>> ELSE <<>>) \o
+                      \* one failing call is one input/output error in the summary (never more: an error must not be counted again
+                      \* for the stripes that follow; it may be 0 only through the known findings F3/F4 on parity writes)
+                      (IF p >= 0 /\ Ev.out.io > 1 THEN <<<<"C08", "one-io-error-counted-several-times", [kind |-> a.fkind, pos |-> p, io |-> Ev.out.io]>>>> ELSE <<>>) \o
                       (IF others # {} THEN <<<<"C08", "io-error-changes-the-outcome-of-other-stripes", [kind |-> a.fkind, pos |-> p, others |-> others]>>>> ELSE <<>>) \o
                       (IF Ev.state.sha.f # sha.f THEN <<<<"C12", Ev.e \o "-changed-data", <<>>>>>> ELSE <<>>) \o
                       (IF Ev.e = "ScrubFault" /\ Ev.state.sha.p # sha.p THEN <<<<"C12", "ScrubFault-changed-parity", <<>>>>>> ELSE <<>>)
@@ -542,7 +560,12 @@ TouchStep ==
                                     /\ nf[d][n].mt[1] = fs[d][n].mt[1] /\ nf[d][n].mt[2] > 0
                                     /\ newc.cf[d][n] = [C.cf[d][n] EXCEPT !.mt = <<C.cf[d][n].mt[1], nf[d][n].mt[2]>>]
                                ELSE nf[d][n] = fs[d][n]
-                         /\ \A n \in DOMAIN C.cf[d] : (n \notin DOMAIN fs[d] \/ C.cf[d][n].mt[2] # 0) => newc.cf[d][n] = C.cf[d][n]
+                         \* observation O3: touch opens the recorded path whatever is there now; when a directory has taken the
+                         \* place of a recorded file it gives the directory a new sub-second stamp and records it for the file
+                         /\ \A n \in DOMAIN C.cf[d] : (n \notin DOMAIN fs[d] \/ C.cf[d][n].mt[2] # 0) =>
+                               \/ newc.cf[d][n] = C.cf[d][n]
+                               \/ /\ n \in AllDirs(lks, d) /\ C.cf[d][n].mt[2] = 0
+                                  /\ newc.cf[d][n] = [C.cf[d][n] EXCEPT !.mt = <<C.cf[d][n].mt[1], newc.cf[d][n].mt[2]>>]
            okRest == newc.del = C.del /\ newc.info = C.info /\ ParAgrees(par, Ev.state)
        IN /\ Follow(Ev.state, par)
           /\ diag' = IF okFiles /\ okRest THEN <<>> ELSE <<"Touch", l, [okFiles |-> okFiles, okRest |-> okRest]>>
